@@ -10,6 +10,9 @@
 //	        must stay until the counter reaches zero.
 //	launch  Launch / DoTimes / Operation.Add / Operation.StartGroup with gated goroutines: Wait returns only after
 //	        all of them have ended.
+//	launchx launches with an ended launch context and bodies that end by Goexit / recovered panic: every Inc is matched
+//	        by a Done (Wait with a live context returns, counter 0).
+//	edge    one Wait entering exactly when the last Done runs, many rounds: never a missed wake-up.
 //	dotimes the counted helpers with ANY count (-3..3), on an idle group and beside running workers: a non-positive
 //	        count is a no-op, the group counts exactly the goroutines that were started.
 //
@@ -56,6 +59,8 @@ type Case struct {
 	Delay  int     `json:"delay_us,omitempty"`
 	N      int     `json:"n,omitempty"`
 	Via    string  `json:"via,omitempty"` // launch | dotimes | opadd | startgroup
+	Ctx    string  `json:"ctx,omitempty"`  // launchx: live | cancelled | soon
+	Exit   string  `json:"exit,omitempty"` // launchx: return | panicrec | goexit
 }
 
 var grace = 2 * time.Millisecond
@@ -111,6 +116,26 @@ func safeDo(f func()) (panicked bool) {
 	return false
 }
 
+// stillUsable reports whether the read-only methods of the group return (10 s bound) — they must, also right after
+// an Add that panicked: the deferred Unlock runs during the panic.
+func stillUsable(wg *fun.WaitGroup) bool {
+	done := make(chan struct{})
+	go func() {
+		wg.Num()
+		wg.IsDone()
+		ctx, cancel := context.WithCancel(context.Background())
+		cancel()
+		wg.Wait(ctx)
+		close(done)
+	}()
+	select {
+	case <-done:
+		return true
+	case <-time.After(longBound):
+		return false
+	}
+}
+
 type waitResult struct {
 	begin, end int64
 	live       bool // context still live when Wait returned
@@ -143,6 +168,12 @@ func runSeq(run *kit.Run, c Case, verbose bool) seqObs {
 				p = safeDo(wg.Done)
 			default:
 				p = safeAdd(wg, n)
+			}
+			if p && !stillUsable(wg) {
+				fail("C14:Add:negative-leaves-locked", fmt.Sprintf("step %d: after the recovered panic of %s(%d) at counter %d, Num / IsDone / Wait(cancelled ctx) did not all return within %v: the group is left locked", i, o.Op, n, shadow, longBound))
+				obs.Res = append(obs.Res, "RPanic")
+				obs.Final = shadow
+				return obs // every further call on this group would hang
 			}
 			after := wg.Num()
 			if shadow+n < 0 {
@@ -736,6 +767,160 @@ func runDoTimes(run *kit.Run, c Case, verbose bool) doTimesObs {
 	return ob
 }
 
+// ---------------------------------------------------------------- Launch with an ended context / every exit path
+
+type launchXObs struct {
+	Ran          int  `json:"ran"`
+	WaitReturned bool `json:"wait_returned"`
+	Final        int  `json:"final"`
+}
+
+// runLaunchX: N goroutines started through the group with a launch context that is live, already cancelled, or
+// cancelled concurrently with the launches; each body ends by normal return, by a panic that the library's
+// WithRecover wrapper turns into an error, or by runtime.Goexit.  Whatever the combination, every Inc must be matched
+// by a Done: a Wait with a (different) live 10 s context returns and the counter is 0 afterwards.
+func runLaunchX(run *kit.Run, c Case, verbose bool) launchXObs {
+	wg := &fun.WaitGroup{}
+	var ob launchXObs
+	fail := func(sig, detail string) { run.OracleFail(c.ID, sig, detail, c, ob) }
+	var ran atomic.Int64
+	var op fun.Operation
+	switch c.Exit {
+	case "return":
+		op = func(context.Context) { ran.Add(1) }
+	case "panicrec":
+		op = fun.Operation(func(context.Context) { ran.Add(1); panic("c14: worker panic") }).WithRecover().Ignore()
+	case "goexit":
+		op = func(context.Context) { ran.Add(1); runtime.Goexit() }
+	default:
+		panic("unknown exit " + c.Exit)
+	}
+	lctx, lcancel := context.WithCancel(context.Background())
+	defer lcancel()
+	switch c.Ctx {
+	case "cancelled":
+		lcancel()
+	case "soon":
+		go func() { runtime.Gosched(); lcancel() }()
+	}
+	switch c.Via {
+	case "launch":
+		for i := 0; i < c.N; i++ {
+			wg.Launch(lctx, op)
+		}
+	case "dotimes":
+		wg.DoTimes(lctx, c.N, op)
+	case "opadd":
+		for i := 0; i < c.N; i++ {
+			op.Add(lctx, wg)
+		}
+	case "startgroup":
+		op.StartGroup(lctx, wg, c.N)
+	default:
+		panic("unknown via " + c.Via)
+	}
+	sig := "C14:Wait:missed-wakeup"
+	why := ""
+	if c.Exit != "return" {
+		sig, why = "C14:Launch:not-released", fmt.Sprintf(" (workers end by %s)", c.Exit)
+	} else if c.Ctx != "live" {
+		sig, why = "C14:Launch:leaked-count", fmt.Sprintf(" (launch context %s)", c.Ctx)
+	}
+	wctx, wcancel := context.WithTimeout(context.Background(), longBound)
+	defer wcancel()
+	done := make(chan bool, 1)
+	go func() { wg.Wait(wctx); done <- wctx.Err() == nil }()
+	select {
+	case live := <-done:
+		ob.WaitReturned = live
+	case <-time.After(longBound + 3*time.Second):
+	}
+	ob.Ran = int(ran.Load())
+	ob.Final = wg.Num()
+	if c.Ctx != "live" && ob.Ran < c.N { // bodies were skipped because of the launch context: that is the cause
+		sig, why = "C14:Launch:leaked-count", fmt.Sprintf(" (launch context %s)", c.Ctx)
+	}
+	if !ob.WaitReturned {
+		fail(sig, fmt.Sprintf("%s x%d%s: Wait with a live context did not return within %v; %d bodies ran, counter %d with no goroutine left to decrement it", c.Via, c.N, why, longBound, ob.Ran, ob.Final))
+	} else if ob.Final != 0 {
+		fail(sig, fmt.Sprintf("%s x%d%s: counter is %d after Wait returned", c.Via, c.N, why, ob.Final))
+	}
+	if verbose {
+		fmt.Printf("  launchx via=%s n=%d ctx=%s exit=%s -> %+v\n", c.Via, c.N, c.Ctx, c.Exit, ob)
+	}
+	return ob
+}
+
+// ---------------------------------------------------------------- Wait entering exactly when the last Done runs
+
+type edgeObs struct {
+	Rounds   int `json:"rounds"`
+	Released int `json:"released"`
+	Final    int `json:"final"`
+}
+
+// runEdge: many rounds of Add(1), then — released together by a spin barrier — one goroutine calls Wait (live 10 s
+// context) while another calls Done.  Whichever comes first, Wait must return with its context live: either it sees
+// zero at its check, or it is parked before the Done's Broadcast (check and park are one critical section).
+func runEdge(run *kit.Run, c Case, verbose bool) edgeObs {
+	wg := &fun.WaitGroup{}
+	ob := edgeObs{}
+	fail := func(sig, detail string) { run.OracleFail(c.ID, sig, detail, c, ob) }
+	for r := 0; r < c.N; r++ {
+		ob.Rounds++
+		wg.Add(1)
+		var ready atomic.Int32
+		var goFlag atomic.Bool
+		res := make(chan bool, 1)
+		doneRet := make(chan struct{})
+		ctx, cancel := context.WithTimeout(context.Background(), longBound)
+		spinW, spinD := (r*7)%23, (r*13)%29
+		go func() {
+			ready.Add(1)
+			for !goFlag.Load() {
+			}
+			for i := 0; i < spinW; i++ {
+				_ = ready.Load()
+			}
+			wg.Wait(ctx)
+			res <- ctx.Err() == nil
+		}()
+		go func() {
+			ready.Add(1)
+			for !goFlag.Load() {
+			}
+			for i := 0; i < spinD; i++ {
+				_ = ready.Load()
+			}
+			wg.Done()
+			close(doneRet)
+		}()
+		for ready.Load() < 2 {
+			runtime.Gosched()
+		}
+		goFlag.Store(true)
+		<-doneRet
+		live := false
+		select {
+		case live = <-res:
+		case <-time.After(longBound + 3*time.Second):
+		}
+		cancel()
+		if live {
+			ob.Released++
+		} else {
+			ob.Final = wg.Num()
+			fail("C14:Wait:missed-wakeup", fmt.Sprintf("round %d: Done returned (counter %d) but the Wait that started at the same moment came back only through its %v deadline", r, ob.Final, longBound))
+			break
+		}
+	}
+	ob.Final = wg.Num()
+	if verbose {
+		fmt.Printf("  edge: %+v\n", ob)
+	}
+	return ob
+}
+
 // ---------------------------------------------------------------- cancellation race stress (thorough tier)
 
 // runStress hunts the cancellation race: many waiters whose contexts are cancelled right around the moment they
@@ -856,7 +1041,9 @@ func main() {
 	run.Rule = "seq: random sequences (0..30 ops) of Add(-3..3)/Inc/Done/Num/IsDone/Wait(try-form)/Wait(cancelled ctx) on the real WaitGroup; " +
 		"rounds: a group reused over 1..3 rounds, 1..4 waiters x 1..4 workers whose Add/Done sequences return to zero, 5 start delays; " +
 		"cancel: 1..3 cancelled + 0..3 live waiters at a positive counter; launch: 0..6 gated goroutines through Launch/DoTimes/Operation.Add/StartGroup; " +
-		"dotimes: DoTimes/StartGroup/Launch-loop/Operation.Add-loop with count -3..3 on a group with 0..3 gated running workers. " +
+		"dotimes: DoTimes/StartGroup/Launch-loop/Operation.Add-loop with count -3..3 on a group with 0..3 gated running workers; " +
+		"launchx: 1..4 launches with a live/cancelled/concurrently-cancelled launch context whose bodies end by return/recovered panic/runtime.Goexit; " +
+		"edge: batches of 250 rounds of one Wait racing the last Done (spin barrier). " +
 		"distinct = distinct case specification; non-trivial = seq with at least one Add-like op and one Wait/Num, every concurrent case"
 	if run.Thorough() {
 		grace = 10 * time.Millisecond
@@ -897,6 +1084,15 @@ func main() {
 		{Kind: "dotimes", K: 1, N: 0, Via: "startgroup"},
 		{Kind: "dotimes", K: 2, N: 2, Via: "dotimes"},
 		{Kind: "dotimes", K: 0, N: -2, Via: "opadd"},
+		// launch context already ended / workers ending by Goexit or a recovered panic: still balanced
+		{Kind: "launchx", N: 2, Via: "launch", Ctx: "cancelled", Exit: "return"},
+		{Kind: "launchx", N: 3, Via: "dotimes", Ctx: "cancelled", Exit: "return"},
+		{Kind: "launchx", N: 1, Via: "opadd", Ctx: "soon", Exit: "return"},
+		{Kind: "launchx", N: 2, Via: "startgroup", Ctx: "live", Exit: "goexit"},
+		{Kind: "launchx", N: 2, Via: "launch", Ctx: "live", Exit: "panicrec"},
+		{Kind: "launchx", N: 1, Via: "launch", Ctx: "cancelled", Exit: "goexit"},
+		// Wait entering exactly when the last Done runs
+		{Kind: "edge", N: 300},
 	}
 	// a defect that makes Wait hang costs 10 s per failing case: a handful of failures is enough evidence
 	enough := func() bool { return run.NOracle+len(ctxIgnoredSeen) >= 5 }
@@ -945,6 +1141,19 @@ func main() {
 	for i := 0; i < ndotimes && !enough(); i++ {
 		r := run.Rand.Fork()
 		execCase(run, Case{ID: id, Kind: "dotimes", K: r.Range(0, 3), N: r.Range(-3, 3), Via: dvias[r.Intn(len(dvias))]}, false)
+		id++
+	}
+	nlx := run.Pick(400, 5000)
+	ctxs := []string{"live", "cancelled", "cancelled", "soon"}
+	exits := []string{"return", "return", "goexit", "panicrec"}
+	for i := 0; i < nlx && !enough(); i++ {
+		r := run.Rand.Fork()
+		execCase(run, Case{ID: id, Kind: "launchx", N: r.Range(1, 4), Via: vias[r.Intn(len(vias))], Ctx: ctxs[r.Intn(len(ctxs))], Exit: exits[r.Intn(len(exits))]}, false)
+		id++
+	}
+	nedge := run.Pick(40, 600)
+	for i := 0; i < nedge && !enough(); i++ {
+		execCase(run, Case{ID: id, Kind: "edge", N: 250}, false)
 		id++
 	}
 	if run.Thorough() && !enough() {
@@ -1013,6 +1222,21 @@ func execCase(run *kit.Run, c Case, verbose bool) {
 		run.Count(fmt.Sprintf("dotimes/running=%d", c.K))
 		term := fmt.Sprintf("CDoTimes %s %s %s %s %s %s %s", kit.ZI(c.ID), kit.ZI(c.K), kit.ZI(c.N), kit.Bool(ob.Panicked), kit.ZI(ob.After), kit.Bool(ob.WaitEarly), kit.ZI(ob.Final))
 		run.Case(c.ID, c, term, fmt.Sprintf("d|%s|%d|%d", c.Via, c.K, c.N), true)
+	case "launchx":
+		ob := runLaunchX(run, c, verbose)
+		run.Count(fmt.Sprintf("launchx/ctx=%s,exit=%s", c.Ctx, c.Exit))
+		ex := map[string]string{"return": "ExReturn", "panicrec": "ExReturn", "goexit": "ExGoexit"}[c.Exit] // a recovered panic is a normal return for PostHook
+		term := fmt.Sprintf("CLaunchX %s %s %s %s %s %s %s", kit.ZI(c.ID), kit.ZI(c.N), kit.Bool(c.Ctx == "live"), ex, kit.ZI(ob.Ran), kit.Bool(ob.WaitReturned), kit.ZI(ob.Final))
+		if c.Ctx == "soon" {
+			term = "" // whether a launch saw the context live is not determined; the oracle above still judges the outcome
+		}
+		run.Case(c.ID, c, term, fmt.Sprintf("x|%s|%d|%s|%s", c.Via, c.N, c.Ctx, c.Exit), true)
+	case "edge":
+		ob := runEdge(run, c, verbose)
+		run.Count("edge/batches")
+		run.Extra["edge_rounds"] = ob.Rounds + func() int { v, _ := run.Extra["edge_rounds"].(int); return v }()
+		term := fmt.Sprintf("CEdge %s %s %s %s", kit.ZI(c.ID), kit.ZI(ob.Rounds), kit.ZI(ob.Released), kit.ZI(ob.Final))
+		run.Case(c.ID, c, term, fmt.Sprintf("e|%d|%d", c.ID, c.N), true)
 	case "stress":
 		trials, stuck := runStress(run, c, verbose)
 		run.Extra["stress_trials"] = trials
